@@ -20,6 +20,10 @@ CHECKS["C06"] = dict(engine="E2", level="exploration", technique="deterministic 
    text="Programs of 2-4 clients x 1-3 namespace calls on one shared tree (MemFS through per-client Sub views, or one OrefaFS) run under the serialising scheduler; every RWMutex acquisition is a scheduling point decided from the tape. The history (invoke/return by global event counter) plus a final observation of the tree and all handles is checked with porcupine against the same implementation executed sequentially (fresh instance per candidate order). Two recorded root causes (acting on a directory/name that a concurrent call removes or moves) are known findings; 90% of the runs drop the calls that would expose them so that the rest of the space is checked strictly. Sampling, not proof.",
    note="trusted: scheduler model of sync.RWMutex (TryLock cross-check), porcupine, equivalence of sequential orders with identical observable state; sequential defects are out of scope here (C01)", ref="3/C06")
 
+CHECKS["C08"] = dict(engine="E2", level="exploration", technique="deterministic simulation coupled with the Go race detector: seeded schedules, scheduler hand-offs hidden from the detector",
+   text="Programs of 2-8 clients on a shared MemFS (per-client Sub views, distinct users, umask/cwd setters), a shared OrefaFS, a shared MemIdm, with own handles and a handle shared by all clients, run under the serialising scheduler in a -race build. The scheduler's own hand-offs are wrapped in runtime.RaceDisable/RaceEnable and its client-side code is go:norace, so the detector sees exactly avfs's own happens-before edges: two conflicting accesses that both occur in a run and are not ordered by avfs's locks are reported regardless of timing, and the same seed reports the same race. Shrinking and replay run candidates in fresh processes (the detector reports a given race once per process). Sampling, not proof.",
+   note="trusted: Go race detector (ThreadSanitizer); visibility of spawn/join edges as in a user program; interleavings at lock granularity (what lies between two lock operations of a client is exactly what the detector judges)", ref="3/C08")
+
 NA = {
  "C13": "Clean, Join, Split, Dir, Base, IsAbs, Rel, Abs, FromSlash, ToSlash, VolumeName, Match and PathIterator are pure functions of their string arguments and the OS-type constant: there is no schedule, clock, I/O, fault or shared state for a simulator to control; generating strings is input fuzzing, a different technique (DESIGN.md section 4).",
 }
